@@ -382,12 +382,12 @@ TABLE['C15'] = dict(
     ])
 
 TABLE['C16'] = dict(
-    imports=[A + 'DriverPath', A + 'MutConfig'],
+    imports=[A + 'DriverPath', A + 'MutConfig', A + 'MutConfigNonneg'],
     summary='Proved exactly over any field, unbounded n: the matrix the code inverts, sum of P_i = P_total, words of length m sum to '
             'P_total^m and regroup by configuration through distinct orderings, total mass of <= M mutations = 1 - alpha P_total^(M+1) 1, '
             'empty configuration = resolvent form of the Laplace transform, expected counts = theta times expected SFS, first-step '
-            'recursion, `_unfold` lists exactly the unfoldings, `_get_partitions` and the distinct-orderings spec. Partial: '
-            'non-negativity of the resolvent (M-matrix), PT4.',
+            'recursion, `_unfold` lists exactly the unfoldings, `_get_partitions` and the distinct-orderings spec. The numbers are '
+            'probabilities: for a sub-generator (off-diagonals >= 0, row sums <= 0), theta > 0 and positive total reward the resolvent is entrywise non-negative (M-matrix minimum principle), hence every configuration probability lies in [0, 1] and every partial mass in [0, 1]. Partial: PT4.',
     theorems=[
         ('executable_getP', 'PG.getP_spec', 'the EXECUTABLE getP (certified Gauss-Jordan inverse) returns the matrices of the theorems'),
         ('executable_resolvent', 'PG.getP_resolvent', 'and provides the resolvent hypotheses of the C16 theorems'),
@@ -408,6 +408,14 @@ TABLE['C16'] = dict(
         ('orderings_spec', 'PG.distinctOrderings_spec', 'every distinct ordering exactly once'),
         ('partitions_spec', 'PG.partitionsOf_spec', '_get_partitions lists every configuration once'),
         ('unfold_spec', 'PG.unfoldConfig_spec', '_unfold lists exactly the configurations that fold to the given one'),
+        ('resolvent_nonneg', 'PG.resolvent_nonneg', 'M-MATRIX: (theta D - S)^-1 is entrywise non-negative for every sub-generator S, theta > 0, positive total reward (minimum principle for Z-matrices with positive row sums)'),
+        ('resolvent_exists', 'PG.resolvent_det_ne_zero', 'the matrix the code inverts is invertible under the same hypotheses'),
+        ('prob_nonneg', 'PG.config_orderings_prob_nonneg', 'every configuration probability (sum over distinct orderings) is >= 0'),
+        ('prob_le_one', 'PG.config_orderings_prob_le_one', 'and <= 1'),
+        ('mass_le_one', 'PG.config_mass_le_one', 'the mass of all configurations with at most M mutations is <= 1 (and >= 0: config_mass_nonneg)'),
+        ('executable_prob_nonneg', 'PG.mutConfigProb_nonneg', 'the EXECUTABLE mutConfigProb returns a non-negative number under the sign hypotheses on its inputs'),
+        ('executable_prob_le_one', 'PG.mutConfigProb_le_one', 'and at most 1'),
+        ('minimum_principle', 'PG.zmatrix_minimum_principle', 'M x >= 0 implies x >= 0 for a Z-matrix with strictly positive row sums'),
     ])
 
 TABLE['C17'] = dict(
